@@ -177,22 +177,59 @@ pub fn panic_msg(p: Box<dyn std::any::Any + Send>) -> String {
 
 /// `Expr::evaluate(facts)` on the real code
 pub fn impl_eval(e: &Expr, facts: &Value) -> String {
-    match catch_unwind(AssertUnwindSafe(|| block_on(e.evaluate(facts)))) {
-        Err(p) => format!("PANIC {}", panic_msg(p).replace(['\t', '\n'], " ")),
+    let direct = match catch_unwind(AssertUnwindSafe(|| block_on(e.evaluate(facts)))) {
+        Err(p) => return format!("PANIC {}", panic_msg(p).replace(['\t', '\n'], " ")),
         Ok(r) => enc_result(&r),
+    };
+    // "whether parsed from text or built through the public constructors": the same tree built with `Expr::mult`,
+    // `Expr::iif`, … must evaluate identically
+    let ctor = match catch_unwind(AssertUnwindSafe(|| block_on(via_ctor(e).evaluate(facts)))) {
+        Err(p) => return format!("PANIC (built through the public constructors) {}", panic_msg(p).replace(['\t', '\n'], " ")),
+        Ok(r) => enc_result(&r),
+    };
+    if ctor != direct {
+        return format!("(constructors-change-the-result direct {} constructed {})", direct, ctor);
     }
+    direct
 }
 
+/// The ruleset of a case.  Which registration entry points are used (one by one or in a batch; functions by value or
+/// boxed; symbols one by one or as a table) is a deterministic function of the case, so that every stream exercises all
+/// of them and a failure replays.
 pub fn build_ruleset(rules: &[Expr], env: &EnvSpec, shared: &Arc<Shared>) -> Result<RuleSet, reval::Error> {
+    use std::hash::{Hash, Hasher};
+    let mut hasher = std::collections::hash_map::DefaultHasher::new();
+    format!("{:?}", rules.first()).hash(&mut hasher);
+    rules.len().hash(&mut hasher);
+    env.fns.len().hash(&mut hasher);
+    let h = hasher.finish();
     let mut b = ruleset();
-    for (i, e) in rules.iter().enumerate() {
-        b = b.with_rule(Rule::new(format!("r{}", i), BTreeMap::new(), e.clone()))?;
+    // half of the cases hold the rules as built through the public constructors
+    let rs: Vec<Rule> = rules.iter().enumerate().map(|(i, e)| Rule::new(format!("r{}", i), BTreeMap::new(), if h & 8 == 0 { e.clone() } else { via_ctor(e) })).collect();
+    if h & 1 == 0 {
+        for r in rs {
+            b = b.with_rule(r)?;
+        }
+    } else {
+        b = b.with_rules(rs)?;
     }
-    for f in &env.fns {
-        b = b.with_function(HFn { name: leak(&f.name), spec: f.clone(), shared: shared.clone() })?;
+    if h & 2 == 0 {
+        for f in &env.fns {
+            b = b.with_function(HFn { name: leak(&f.name), spec: f.clone(), shared: shared.clone() })?;
+        }
+    } else {
+        let boxed: Vec<Box<dyn UserFunction + Send + Sync>> =
+            env.fns.iter().map(|f| Box::new(HFn { name: leak(&f.name), spec: f.clone(), shared: shared.clone() }) as Box<dyn UserFunction + Send + Sync>).collect();
+        b = b.with_functions(boxed)?;
     }
-    for (k, v) in &env.syms {
-        b = b.with_symbol(k, v.clone());
+    if h & 4 == 0 {
+        for (k, v) in &env.syms {
+            b = b.with_symbol(k, v.clone());
+        }
+    } else {
+        let mut t = Symbols::default();
+        t.append(env.syms.iter().map(|(k, v)| (k.clone(), v.clone())));
+        b = b.with_symbols(t)?;
     }
     Ok(b.build())
 }
